@@ -3,6 +3,7 @@ from __future__ import annotations
 
 import lang
 from common import cps, load_impl, rng
+from common import exc_name  # noqa: E402
 
 NONASCII_DIGITS = "٣۷७７"     # Arabic-Indic 3, Extended Arabic-Indic 7, Devanagari 7, Fullwidth 7
 ODD_WS = ["\x1f", "\xa0", " "]
@@ -54,7 +55,7 @@ def observe_section(cid, lines, sync_extra=(), events_extra=(), res=192):
                       tracks={"ExpertSingle": lines})
     kind, val = outcome(text)
     if kind == "raise":
-        rec["raised"] = type(val).__name__
+        rec["raised"] = exc_name(val)
         return rec
     tr = [t for _, dd in val.instrument_tracks.items() for _, t in dd.items()][0]
 
@@ -87,7 +88,7 @@ def observe_elements(cid, elems, how="list"):
         bpm = SyncTrack.from_chart_lines(192, ["  0 = TS 4", "  0 = B 120000"]).bpm_events
         tr = InstrumentTrack.from_chart_lines(Instrument.GUITAR, Difficulty.EXPERT, as_iterable(list(elems), how), bpm)
     except Exception as e:  # noqa: BLE001
-        rec["raised"] = type(e).__name__
+        rec["raised"] = exc_name(e)
         return rec
 
     def digits(n):
